@@ -481,7 +481,9 @@ fn binary_case(cx: &mut CaseCtx, input: Input, cfg: &GenCfg) -> CaseResult {
     // (2) one permutation and one reference assignment through the binary
     let perms = permutations(n);
     let perm = perms[pick(&mut u, perms.len())].clone();
-    let refs = if n >= 2 { 1 + pick(&mut u, (1usize << n) - 2) as u32 } else { 0 };
+    // (any assignment but the identity's: also the one in which every file is a reference and none is a source)
+    let refs = 1 + pick(&mut u, (1usize << n) - 1) as u32;
+    cx.label_if(refs == (1u32 << n) - 1, "binary-every-file-a-reference");
     let (c, c_req) = run(cx, 3, &perm, refs)?;
     check!(
         (a.code == Some(0)) == (c.code == Some(0)),
@@ -520,6 +522,15 @@ fn binary_case(cx: &mut CaseCtx, input: Input, cfg: &GenCfg) -> CaseResult {
         );
         cx.label_if(!wa.is_empty(), "binary-warnings-compared");
     }
+    if a.code == Some(0) && c.code == Some(0) {
+        check!(
+            a_req.is_some() == c_req.is_some(),
+            "binary/request-sent-depends-on-arrangement",
+            "identity arrangement: request {}; order {perm:?} refs {refs:#b}: request {}",
+            if a_req.is_some() { "sent" } else { "not sent" },
+            if c_req.is_some() { "sent" } else { "not sent" }
+        );
+    }
     if let (Some(ra), Some(rc)) = (&a_req, &c_req) {
         let (da, _) = decode_and_interpret(ra).map_err(|e| Fail::new("binary/undecodable-request", format!("{e:?}")))?;
         let (dc, _) = decode_and_interpret(rc).map_err(|e| Fail::new("binary/undecodable-request", format!("{e:?}")))?;
@@ -545,7 +556,7 @@ impl Check for C15 {
         "C15"
     }
     fn rule(&self) -> String {
-        "families: in-process = proptest choice sequences -> multi-file programs (1..4 files, cross-file and cross-module references, aliases, inheritance, re-opened modules; valid, with warnings, or with one injected error) written to real files and compiled with compile_from_options in every permutation of the files and every source/reference assignment: acceptance, per-path observed content and the multiset of warnings (code, level, message, span) must not change, also when one file is listed twice (adjacent or apart); collisions = 42 templates (same definition in two files, definition vs nested module of another file, enumerator / field / operation / parameter / return member vs module of another file, preprocessor symbols defined in one file and tested in another, containment cycles spread over files and used from outside; each with and without a variation) in every order and every source/reference assignment; repetition = six texts with several errors of one kind on one element, compiled twelve times in one process (and by sixteen processes): the recorded list is the same every time; binary = the same argv (one generator with five arguments; now and then an extra module-less file at a drawn position) twice in fresh processes (byte-identical stdout, stderr, exit status, generator request) plus one random permutation and reference assignment (acceptance, the multiset of warnings shown, per-path decoded request content). Non-trivial = >= 2 files".into()
+        "families: in-process = proptest choice sequences -> multi-file programs (1..4 files, cross-file and cross-module references, aliases, inheritance, re-opened modules; valid, with warnings, or with one injected error) written to real files and compiled with compile_from_options in every permutation of the files and every source/reference assignment: acceptance, per-path observed content and the multiset of warnings (code, level, message, span) must not change, also when one file is listed twice (adjacent or apart); collisions = 42 templates (same definition in two files, definition vs nested module of another file, enumerator / field / operation / parameter / return member vs module of another file, preprocessor symbols defined in one file and tested in another, containment cycles spread over files and used from outside; each with and without a variation) in every order and every source/reference assignment; repetition = six texts with several errors of one kind on one element, compiled twelve times in one process (and by sixteen processes): the recorded list is the same every time; binary = the same argv (one generator with five arguments; now and then an extra module-less file at a drawn position) twice in fresh processes (byte-identical stdout, stderr, exit status, generator request) plus one random permutation and reference assignment, incl. every file a reference (acceptance, whether a request is sent, the multiset of warnings shown, per-path decoded request content). Non-trivial = >= 2 files".into()
     }
     fn assumptions(&self) -> Vec<String> {
         vec!["only the order of files and of reports may change; error diagnostics of rejected programs are not compared across arrangements (only that they are rejected)".into()]
@@ -566,6 +577,7 @@ impl Check for C15 {
             "reproducibility-compared",
             "request-content-compared",
             "binary-module-less-file-not-last",
+            "binary-every-file-a-reference",
         ]
     }
     fn needs_binary(&self) -> bool {
